@@ -17,7 +17,7 @@ impl Codec for Dna {
     }
 
     fn try_from_bits(b: u8) -> Option<Self> {
-        Some(Self(b))
+        Self::try_from_ascii(b)
     }
 
     fn unsafe_from_ascii(c: u8) -> Self {
